@@ -373,7 +373,11 @@ def run_check(prop_id: str, level: str, tier: str, check_module: str, obligation
     if level == "model_checking":
         coverage["states"] = max(1, total["paths"])
         coverage["transitions"] = max(1, total["decisions"] + total["paths"])
-        coverage["traces_validated_against_impl"] = n_replayed
+        # the reference model and the real implementation run side by side on every path: a completed path is a model trace
+        # whose every step was compared with the implementation (symbolically, for all values of the path condition)
+        coverage["traces_validated_against_impl"] = total["paths_ok"]
+        coverage["traces_note"] = ("model and implementation are executed together: each completed path is one model trace compared step by step "
+                                   "with the real code under the solver; %d solver counterexamples were additionally replayed on the plain library" % n_replayed)
     if level == "translation_validation":
         coverage["programs"] = max(1, len(obligations))
         coverage["disagreements_checked"] = n_replayed
